@@ -50,7 +50,7 @@ def showConn : Conn → String
   | .none => "none" | .open => "open" | .closed => "closed"
 
 def showClient (c : Client) : String :=
-  s!"{c.host}:{c.session},{c.oldSession},{c.serial},{b2s c.endOfData},{c.pending.length},{showConn c.conn},{b2s c.timer},q{String.ofList (c.queries.map fun q => if q then 'r' else 's')}"
+  s!"{c.host}:{c.session},{c.oldSession},{c.serial},{b2s c.endOfData},{c.pending.length},{showConn c.conn},{if c.timer then c.timerGen else 0},q{String.ofList (c.queries.map fun q => if q then 'r' else 's')}"
 
 def insClient (c : Client) : List Client → List Client
   | [] => [c]
@@ -82,7 +82,7 @@ def parseEv : List String → Option Ev
   | ["mconn", h] => some (.connected (nat! h))
   | ["mclose", h] => some (.connClosed (nat! h))
   | ["mdisc", h] => some (.disconnected (nat! h))
-  | ["mfire", h] => some (.lifetime (nat! h))
+  | ["mfire", h, g] => some (.lifetime (nat! h) (nat! g))
   | ["menable", h] => some (.enable (nat! h))
   | ["mdisable", h] => some (.disable (nat! h))
   | ["msoft", h] => some (.softReset (nat! h))
